@@ -256,7 +256,8 @@ func SecondStartSweep(bin string, base string, every int, emit func(Ev)) error {
 			continue
 		}
 		e := mk()
-		var exitB int
+		var exitB, exitC int
+		thirdRan := false
 		var outB string
 		var histAtB, histAfterB int
 		var statusDuring string
@@ -290,6 +291,24 @@ func SecondStartSweep(bin string, base string, every int, emit func(Ev)) error {
 				o, _ := os.ReadFile(outFile)
 				outB = trunc(string(o), 300)
 				histAfterB = len(e.histFiles())
+				// a refused start must leave the active run as it was: right after the refusal a THIRD start is issued; if
+				// the refused one has damaged the first run's claim on the file (its socket, its lock), this one executes
+				// the steps alongside it (seen as interleaved marker lines)
+				if exitB != 0 {
+					rcC := filepath.Join(e.base, "c.rc")
+					cc := exec.Command("sh", "-c", fmt.Sprintf("%s start %s > /dev/null 2>&1; echo $? > %s.tmp; mv %s.tmp %s", bin, e.file, rcC, rcC, rcC))
+					cc.Env = e.env
+					cc.Start()
+					dl := time.Now().Add(25 * time.Second)
+					for time.Now().Before(dl) {
+						if b, err := os.ReadFile(rcC); err == nil {
+							fmt.Sscanf(string(b), "%d", &exitC)
+							thirdRan = true
+							break
+						}
+						time.Sleep(5 * time.Millisecond)
+					}
+				}
 				close(doneB)
 			}()
 			select {
@@ -342,7 +361,7 @@ func SecondStartSweep(bin string, base string, every int, emit func(Ev)) error {
 		c := lst.Calls[k-1]
 		emit(Ev{"kind": "second", "k": k, "ncalls": len(lst.Calls), "sys": c.Name, "path": filepath.Base(c.Path),
 			"afterProbe": k > connectIdx, "committed": k >= commitIdx, "afterBind": k > bindIdx, "afterShutdown": k > bindIdx && !sockLive, "sockLive": sockLive,
-			"runsThatExecuted": len(reqs), "secondBlocked": blocked, "interleaved": interleaved, "exitA": res.ExitCode, "exitB": exitB, "histNewDuringB": histAfterB - histAtB,
+			"runsThatExecuted": len(reqs), "secondBlocked": blocked, "interleaved": interleaved, "exitA": res.ExitCode, "exitB": exitB, "histNewDuringB": histAfterB - histAtB, "thirdStart": thirdRan, "exitC": exitC,
 			"histFiles": len(e.histFiles()), "statusWhileParked": statusDuring, "statusEnd": statusEnd, "statusEndErr": errEnd, "outB": outB})
 		e.cleanup()
 	}
